@@ -191,7 +191,10 @@ class IMatch(Contract):
             return V('list', None, length=z3.Int('n_walk_items'), elem=lambda k: ObjV(fn(k)))
         def h_is_aborted(eng, node, st, args):
             return Bool(z3.Bool(pyvc.fresh('aborted_on_entry')))       # the object may be in the killed state when a run starts
-        return {'self.on_reset': h_reset, 'self._walk': h_walk, 'self.is_aborted': h_is_aborted}
+        def h_state(eng, node, st, args):
+            eng.oblige('WcMatch.imatch.does_not_touch_the_abort_flag_(stays_aborted_until_the_user_calls_reset)', st, z3.BoolVal(False), node)
+            return NONE
+        return {'self.on_reset': h_reset, 'self._walk': h_walk, 'self.is_aborted': h_is_aborted, 'self.reset': h_state, 'self.kill': h_state}
 
     @property
     def invariants(self):
@@ -213,6 +216,16 @@ class IMatch(Contract):
 class Match(Contract):
     module, qual, props = 'wcmatch', 'WcMatch.match', ('C15',)
     pure = ('imatch',)
+
+    @property
+    def hooks(self):
+        def h_state(what):
+            def h(eng, node, st, args):
+                # the abort flag belongs to the user: kill() sets it, reset() clears it, a run neither sets nor clears it
+                eng.oblige('WcMatch.match.does_not_touch_the_abort_flag_(stays_aborted_until_the_user_calls_reset)', st, z3.BoolVal(False), node)
+                return NONE
+            return h
+        return {'self.reset': h_state('reset'), 'self.kill': h_state('kill')}
 
     def inputs(self):
         return dict(params=dict(self=selfobj()), fields={}, pre=[])
